@@ -120,7 +120,7 @@ def judge(outcome, acceptable, tight=True):
             return None
     for a in vals:
         try:
-            if (a[1] == outcome[1]) or fclose(float(outcome[1]), float(a[1]), tight):
+            if a[0] != k and ((a[1] == outcome[1]) or fclose(float(outcome[1]), float(a[1]), tight)):
                 return "type"
         except OverflowError:
             pass
@@ -938,6 +938,7 @@ def run(ctx):
     ctx.extra["engine_resets"] = impl.resets
     # ---- verdict: shrink is trivial (every failure is a single application / call); report distinct signatures
     seen = set()
+    failures.sort(key=lambda f: len(f[0]))       # smallest witness of every signature first
     for what, rep, sig in failures:
         k = json.dumps(sig, sort_keys=True)
         if k in seen and len(seen) > 0 and sum(1 for _ in seen) > 40:
